@@ -97,6 +97,23 @@ RULE = ("(a) direct calls of kvarn_utils::encode_quoted_str / quoted_str_split /
         "plugins returning Error / no data / binary data / close, a stateful counter plugin, then requests after the close; every reply "
         "(or its absence) is compared with the Coq model of the handler and listener. (c) the UTF-8 validator model against "
         "core::str::from_utf8 on boundary byte sequences and mutations. "
+        "(d) scripted sessions with SEVERAL connections at a time against a second instance that keeps kvarn's own `wait` and has a gated "
+        "plugin t-slow (component ctl.conc; steps open / write / fin / await / peek / drop / shutdown / release on numbered connections): "
+        "LONG requests -- unknown commands, raw and kvarnctl-encoded ping / t-args / t-fail / clear arguments whose 1-, 2-, 3- or 4-byte "
+        "UTF-8 character straddles (every split of the character) or ends at byte offset L, counted from the start of the request and from "
+        "the start of the argument, and requests that end at L or in the middle of that character, for L in {15..17, 31..33, 63..65, "
+        "127..129, 255..257, 1023..1025, 2047..2049, 4095..4097, 8191..8193, 65535..65537} (the constants of the path: with_capacity(16), "
+        "read_to_end's 32-byte probe, 4*1024, 2*1024), and invalid UTF-8 (truncated 2/3/4-byte sequences, lone continuation, 0xFF, overlong, "
+        "surrogate, > U+10FFFF) at those offsets; PENDING requests -- 1..6 (one script each with 40 and 150) connections that are connected "
+        "and silent / have sent a part of their request (cut anywhere, also inside a character) / wait in `wait` for the shutdown / sit in "
+        "the slow plugin / have a reply they do not read / vanish in the middle of the request, while other connections make whole "
+        "exchanges (ping with unique tokens, unknown commands, invalid UTF-8, clear, plugin errors, the counter plugin, a closing command); "
+        "then the pending ones are completed in a random order (`wait` by Manager::shutdown); 300 (thorough: up to 2500) sequential "
+        "exchanges with reconnects and dropped connections on one instance. Every reply is compared with the Coq model (LTS of the "
+        "listener) AND checked by oracles that use no model: every request gets, on its own connection and within the bounded wait (6 s; "
+        "0.1-1 ms is typical), a non-empty reply beginning with ok or error (requests that are meant to wait excepted); not UTF-8 / "
+        "unknown command => error; ping and the echo plugins return exactly the arguments sent on that connection; the counter plugin "
+        "counts every request once; a connection is refused only after a closing request or the shutdown; the final ping is answered. "
         "distinct_nontrivial counts distinct (component, input, model outcome) triples whose input contains a space, a quote, a backslash or "
         "an empty string (direct part), every session, and every UTF-8 case with a byte >= 0x80")
 ASSUMPTIONS = [
@@ -105,10 +122,17 @@ ASSUMPTIONS = [
     "one request = everything the client wrote before shutting down its write side, one reply = everything the server wrote before dropping "
     "the connection (kvarn_signal's read_to_end framing, non-uring build); partial writes, the 100 ms re-listen after the socket file is "
     "deleted, and the close sent by a shutdown initiated elsewhere are not modelled",
-    "requests are handled one after the other (the sessions are sequential); concurrent requests run in separate tasks in kvarn and are "
-    "not modelled",
-    "plugins are functions (arguments, state) -> (response, state); post_send callbacks are not modelled. reload and wait are replaced by "
-    "harmless plugins in the harness (reload would re-execute the harness binary, wait blocks until shutdown)",
+    "concurrency is modelled as interleaving: the listener is a transition system whose events (connect, send, half-close, handler step, "
+    "environment) each concern one connection; a handler step is atomic (plugins are functions (arguments, state) -> (response, state), a "
+    "plugin that awaits something is 'blocked' until the state allows it); socket_never_wedged / accept_never_blocked quantify over all "
+    "states, all event sequences of the other connections and any number of connections. For the differential run the model commits to "
+    "one schedule (a handler runs as soon as its request is complete and it is not blocked); the generator keeps at most one "
+    "state-dependent request (t-count, closing commands) in flight, so that every schedule gives the same replies",
+    "promptness is a bounded wait in the run (6 s per reply, KV_C19_WAIT_MS), not a theorem: the theorems say the reply step is enabled "
+    "and independent of the other connections; that tokio runs a spawned task is trusted",
+    "post_send callbacks are not modelled. reload is replaced by a harmless plugin in the harness (it would re-execute the harness "
+    "binary); wait is replaced in the sequential sessions and is kvarn's own in the concurrent ones. A plugin that panics is outside the "
+    "property (reply_total assumes plugins_total; the built-in ping is proved total, the others are total by construction)",
     "clear is modelled for an instance without ports (no host collection is consulted); http's Uri parser is a parameter uri_ok, "
     "instantiated in the run by 'starts with / and consists of [a-z0-9/._-]' and only such paths are generated",
     "Debug formatting ({arg:?}) in shutdown's error message is modelled for strings without control / non-printable characters; the "
@@ -118,9 +142,12 @@ ASSUMPTIONS = [
     "after a closing response the harness waits until the kernel no longer lists the listening socket (/proc/net/unix) before it sends the "
     "next request: the short window in which the accept loop has not yet seen the close message is outside the property",
 ]
-TRUSTED = ["modelled: utils/src/lib.rs encode_quoted_str, QuotedStrSplitIter::next, join; src/ctl.rs listen (handler closure, reply framing), "
-           "with_ping, with_shutdown, with_clear (argument handling); signal/src/lib.rs start_at accept loop (Listening/Closed); "
-           "ctl/src/main.rs message construction and reply reading",
+TRUSTED = ["modelled: utils/src/lib.rs encode_quoted_str, QuotedStrSplitIter::next, join; src/ctl.rs listen (handler closure, reply framing, "
+           "with every slice / String::remove explicit as str_slice_chk / str_remove_chk / frame_chk), with_ping, with_shutdown, with_clear "
+           "(argument handling), with_wait (blocked until shutdown); signal/src/lib.rs start_at accept loop and per-connection task "
+           "(Listening/Closed, connection phases refused / open / complete / replied); ctl/src/main.rs message construction and reply reading",
+           "byte-index slicing of a &str/String: every site in src/ctl.rs, signal/src/lib.rs and the quoting code of utils/src/lib.rs was "
+           "inspected -- the only one is data.remove(0) in with_ping (modelled, proved safe); data[..prepend.len()] is on a Vec<u8>",
            "/proc/net/unix is used by the harness only to wait for the listener's start and stop"]
 EXHAUSTIVE = False
 
@@ -460,24 +487,24 @@ def pending_script(rng, kinds, nothers, closer=None, tcount=False):
             steps += [st(OP_OPEN, k), st(OP_WRITE, k, b"ping gone"[:rng.randrange(0, 10)])]
             finish.append([st(OP_DROP, k)])
     rng.shuffle(steps) if rng.random() < 0.3 else None
-    base = 100
+    base = 10000
     for n in range(nothers):
         if tcount and rng.random() < 0.25:
             steps.append(st(OP_REQ, base + n, b"t-count"))
         else:
             steps.append(st(OP_REQ, base + n, other_request(rng, base + n)))
         if closer is not None and n == nothers // 2:
-            steps.append(st(OP_REQ, 900, closer))
+            steps.append(st(OP_REQ, 20000, closer))
     rng.shuffle(finish)
     for f in finish:
         steps += f
-    steps.append(st(OP_REQ, 9000, b"ping end"))
+    steps.append(st(OP_REQ, 30000, b"ping end"))
     if has_wait:
         steps.append(st(OP_SHUTDOWN))
         for i, kind in enumerate(kinds):
             if kind == "wait":
                 steps.append(st(OP_AWAIT, i + 1))
-        steps.append(st(OP_REQ, 9001, b"ping after"))
+        steps.append(st(OP_REQ, 30001, b"ping after"))
     return steps
 
 
@@ -502,7 +529,7 @@ def conc_sessions(rng, quick):
         out.append(conc(pending_script(rng, kinds, rng.randrange(1, 8), closer=closer, tcount=True),
                         "conc-pending-close" if closer else "conc-pending"))
     # many connections pending at once
-    for n in ((40,) if quick else (40, 200, 400)):
+    for n in ((40, 150) if quick else (40, 150, 400)):
         out.append(conc(pending_script(rng, [rng.choice(("idle", "half", "unread", "slow")) for _ in range(n)], 5), "conc-many-pending"))
     # hundreds of sequential exchanges and reconnects (connections opened and dropped without a request in between)
     for n in ((300,) if quick else (300, 1000, 2500)):
@@ -825,11 +852,20 @@ LEVEL_TEXT = ("Machine-checked Coq theorems over a code-point-level model of enc
               "kvarnctl's message arrives as (command, args), ping echoes exactly; UTF-8 decode(encode s) = s; the reply framing equation; "
               "dispatch totality (not UTF-8 / unknown command / plugin Error => reply starts with 'error', plugin Ok => 'ok', kvarnctl reads that "
               "word as first token); for every history and every plugin table the listener stays Listening and answers every request until a "
-              "response with close = true, and answers nothing afterwards. The model is tied to /repo on every run by a differential run of the "
+              "response with close = true, and answers nothing afterwards. Strengthening: reply_total -- the handler with every panic of its own "
+              "operations explicit returns, for every request byte string and every table of non-panicking plugins, a reply beginning with "
+              "ok/error (ping's String::remove(0) proved safe; cutting a &str at a byte count proved NOT total: log_truncation_refuted); "
+              "socket_never_wedged -- in the transition system of the listener with any number of connections, in every state and after "
+              "every event sequence of the other connections and the environment, a connection whose request is complete keeps it and, as "
+              "soon as its handler is not blocked, gets its reply by its own step, which changes no other connection; accept_never_blocked "
+              "-- a new connection is accepted and read whatever the others do; clients_cannot_close. The model is tied to /repo on every run by a differential run of the "
               "real functions (bounded-exhaustive over {a, SP, \", ', \\} + random Unicode) and of real unix-socket sessions against a running "
-              "kvarn instance.")
+              "kvarn instance, sequential and with several connections pending at once, long requests around every length constant, "
+              "plus model-independent oracles on every reply.")
 LEVEL_NOTE = ("Trusted: Coq kernel, extraction (ExtrOcamlBasic) reduced by an in-kernel recheck sample, the hand transcription of "
               "utils/src/lib.rs, src/ctl.rs, signal/src/lib.rs and ctl/src/main.rs into Model/Quoted.v and Model/Ctl.v as validated by the "
-              "differential run; tokio / the kernel's unix sockets are outside the theorems (sequential request/reply framing assumed). "
+              "differential run; tokio / the kernel's unix sockets are outside the theorems (read_to_end framing and 'a spawned task runs' assumed; promptness is "
+              "checked by the run with a 6 s bound, not proved). Single tokens longer than 16 KiB are only run split into tokens of 700 bytes "
+              "(the model's splitter is quadratic in the token length); messages up to 64 KiB + are run. "
               "The model describes the code after the repair of the empty-argument defect (fixed: line in known-findings.txt). No axioms.")
 TECHNIQUE = "Coq proof (model satisfies the round-trip and dispatch specification for all inputs and histories) + differential correspondence model vs. implementation"
